@@ -352,3 +352,7 @@ func checkC11(t *testing.T, sc Script) *stats.Verdict {
 func TestC11(t *testing.T) {
 	stats.Run(t, stats.Prop[Script]{ID: "C11", Rule: ruleC11, Gen: genC11, Check: checkC11})
 }
+
+func FuzzC11(f *testing.F) {
+	stats.Fuzz(f, stats.Prop[Script]{ID: "C11", Rule: ruleC11, Gen: genC11, Check: checkC11})
+}
